@@ -85,6 +85,17 @@ def run(prog, chk):
                     idle = True
                 if re.match(r"^this->data->activation$", k) and not a[1]:
                     idle = True
+            if not idle:
+                # `data->activation = next; if(next ...) return;`: the value just stored into activation is what the dominating test found null
+                for s_ in q.stores(f):
+                    if s_.rhs is None or s_.op != "=" or not re.search(r"(\.|->)activation$", q.no_casts(f.r(s_.lhs))):
+                        continue
+                    if not f.dominates_pos(f.node_pos(s_.node), f.node_pos(c)):
+                        continue
+                    kr = fin.key(f, s_.rhs)
+                    if any(a[0] != "case" and not a[1] and fin.key(f, a[0]) == kr for a in atoms) and \
+                       not any(o.node != s_.node and re.search(r"(\.|->)activation$", q.no_casts(f.r(o.lhs))) and q.reaches(f, s_.node, o.node) and q.reaches(f, o.node, c) for o in q.stores(f)):
+                        idle = True
             if idle:
                 chk.ok("C12.b", f, "slots.remove() only when no emission is active", f.where(c), "dominated by the activation-is-null edge", evals=len(atoms))
             else:
@@ -101,7 +112,29 @@ def run(prog, chk):
                     if f.name.endswith("~SignalActivation"):
                         continue
                     dirty = [x.node for x in q.stores(f) if re.search(r"(->|\.)dirty$", f.r(x.lhs)) and fin.eval_expr(f, x.rhs, {}) == 1]
-                    if dirty and C.paths_all_pass(f, f.node_pos(s.node), q.pos_of(f, dirty)):
+                    def by_valuation():
+                        """the mark may be a selection (`state = busy ? connecting : connected; if(busy) dirty = true;`): follow the guards
+                        for activation null / non-null (other branches both ways) and require dirty whenever a marking value is stored"""
+                        keys_ = set()
+                        for n_ in f.nodes:
+                            if n_["k"] == "MemberExpr" and n_.get("m") == "activation":
+                                keys_.add(fin.key(f, n_["i"]))
+                        if not keys_:
+                            return False
+                        marks_ = {fin.eval_expr(f, x_, {}) for x_ in (y_["i"] for y_ in f.nodes if y_["k"] == "DeclRefExpr" and y_["ref"].get("dk") == "enumconst"
+                                                                    and y_["ref"].get("n") in ("connecting", "disconnected"))}
+                        for av in (0, 1):
+                            for other in (0, 1):
+                                seen_, end_, fv_ = fin.walk_vals(f, f.entry, {k_: av for k_ in keys_}, assume=lambda k_, o=other: o)
+                                if s.node not in seen_:
+                                    continue
+                                stored = fin.eval_expr(f, s.rhs, dict(fv_, **{k_: av for k_ in keys_}))
+                                if stored is None:
+                                    return False
+                                if stored in marks_ and not any(d_ in seen_ for d_ in dirty):
+                                    return False
+                        return True
+                    if dirty and (C.paths_all_pass(f, f.node_pos(s.node), q.pos_of(f, dirty)) or by_valuation()):
                         chk.ok("C12.b", f, "marking `%s` sets dirty" % nm.split("::")[-1], f.where(s.node), "dirty = true on every path through the mark", evals=2)
                     else:
                         chk.bad("C12.b", f, "mark-without-dirty:" + nm.split("::")[-1], f.where(s.node),
@@ -121,6 +154,26 @@ def run(prog, chk):
     vals = set(q.no_casts(f.r(s.rhs)).split("::")[-1] for s in sets)
     act = [s for s in sets if "connecting" in f.r(s.rhs)]
     ok = vals == {"connected", "connecting"} and all(any(a[0] != "case" and a[1] and re.search(r"\.activation$", fin.key(f, a[0])) for a in fin.dominating_atoms(f, f.node_pos(s.node))) for s in act)
+    if not ok and sets:
+        # decision table: the state stored for activation null / non-null, however the selection is written
+        ev_ = {}
+        for n_ in f.nodes:
+            if n_["k"] == "DeclRefExpr" and n_["ref"].get("dk") == "enumconst" and n_["ref"].get("n") in ("connecting", "connected"):
+                ev_[n_["ref"]["n"]] = n_["ref"].get("v")
+        keys_ = set(fin.key(f, n_["i"]) for n_ in f.nodes if n_["k"] == "MemberExpr" and n_.get("m") == "activation")
+        ok = bool(keys_) and len(ev_) == 2
+        for av in (0, 1):
+            for other in (0, 1):
+                if not ok:
+                    break
+                seen_, end_, fv_ = fin.walk_vals(f, f.entry, {k_: av for k_ in keys_}, assume=lambda k_, o=other: o)
+                st_ = [s_ for s_ in sets if s_.node in seen_]
+                if not st_:
+                    ok = False
+                    break
+                got = fin.eval_expr(f, st_[-1].rhs, dict(fv_, **{k_: av for k_ in keys_}))
+                if got != (ev_["connecting"] if av else ev_["connected"]):
+                    ok = False
     if ok:
         chk.ok("C12.c", f, "a slot connected during an emission starts as `connecting`", where, "state store dominated by the activation test", evals=2)
     else:
